@@ -9,6 +9,7 @@ R8.1 [AVN, law, random interpretation with the axiom sqrt(x)^2 = x] for symbolic
 R8.2 [AVN, provenance with opaque callees] the q, qd that spring / positional pipeline.step (and
      init) report are kinematics.inverse(world_to_joint(x, xd)) of exactly the x, xd stored in the
      same returned state, and the stored j, jd, a_p, a_c are those values.
+R8.5 [RI, law] link_to_joint_frame completes every 1- / 2-joint stack to orthonormal frames containing the axes.
 R8.4 [interpreter event] no executed exact equality test between a computed real quantity and a nonzero constant.
 R8.3 [spec] the scan.py primitives forward / inverse are built on (tree, link_types, _take) meet their
      gather / scatter specification for every topology and index list of the bounded universe
@@ -159,8 +160,49 @@ def r8_2(U, rep):
         avn.exact_mode()
 
 
+def frame_completion(U, rep):
+  """R8.5 [RI, law]: kinematics.link_to_joint_frame completes every 1- and 2-joint stack (each hinge / slide pattern,
+  orthonormal axes by construction) to an ORTHONORMAL angular frame and an orthonormal translational frame that contain
+  the given axes at their dof positions -- inverse() reads the joint coordinates off as projections onto these frames (the
+  2-joint slide-then-hinge stack reads its hinge angle through arccos * sign, which R8.1 cannot decide; its frame can)."""
+  f = U.func(K + '.link_to_joint_frame')
+  for pat in ('r', 'p', 'rr', 'rp', 'pr', 'pp'):
+    bad = None
+    for t in range(60):
+      avn.field_mode(900 + t, decide=lambda nm: 1 if nm.kind == 'any' else None)
+      avn.FIELD['sqrt_axiom'] = True
+      try:
+        I = new_interp(U.repo)
+        qv = refkin.unit_quat('tq')
+        R = [refkin.rot(np.array([Rat.lift(int(i == k)) for i in range(3)], dtype=object), qv) for k in range(3)]
+        z = np.array([Rat.lift(0)] * 3, dtype=object)
+        ang = np.stack([R[k] if c == 'r' else z for k, c in enumerate(pat)])
+        vel = np.stack([R[k] if c == 'p' else z for k, c in enumerate(pat)])
+        m = Struct('Motion', {'ang': ang, 'vel': vel}, home='brax.base')
+        fr, _ = I.apply(fn(K, 'link_to_joint_frame'), [m], {})
+        A, V = asarr(fr.f['ang']), asarr(fr.f['vel'])
+        ortho = lambda X: all(Rat.lift(X.dot(X.T)[i, j]).same(int(i == j)) for i in range(3) for j in range(3))
+        if not ortho(A):
+          bad = 'the angular frame is not orthonormal'
+        elif not ortho(V):
+          bad = 'the translational frame is not orthonormal'
+        elif not (all(same(A[k], R[k]) for k, c in enumerate(pat) if c == 'r') and all(same(V[k], R[k]) for k, c in enumerate(pat) if c == 'p')):
+          bad = 'the frames do not contain the joint axes at their dof positions'
+        break
+      except avn.NonResidue:
+        continue
+      finally:
+        avn.exact_mode()
+    else:
+      raise AnalysisError('R8.5: no random point with all square-root arguments quadratic residues')
+    rep.check(bad is None, 'R8.5', 'link_to_joint_frame completes the stack %r to orthonormal frames' % pat.replace('r', 'h').replace('p', 's'),
+              'for a %s stack %s' % (' then '.join('hinge' if c == 'r' else 'slide' for c in pat), bad), where=f.where(),
+              construct='orthonormal axes by construction; ang / vel frames orthonormal and containing the axes')
+
+
 def run(U, rep, tier):
   del avn.FRAGILE_EQ[:]
+  frame_completion(U, rep)
   r8_1(U, rep, tier)
   r8_2(U, rep)
   # the 2- and 3-hinge stacks (middle Euler angle through arccos * sign: positions NOT decided) are still EXECUTED, both
